@@ -576,6 +576,37 @@ class Normalizer(object):
                     changed[0] = True
                     i += 1
                     continue
+                if isinstance(st, ast.Try) and not st.handlers and \
+                        not st.orelse and st.finalbody and \
+                        len(st.body) == 1 and isinstance(
+                            st.body[0], ast.Try) and st.body[0].handlers \
+                        and not st.body[0].finalbody:
+                    # N18: try: (try: B except H: ..) finally: F  is one
+                    # statement  try: B except H: .. finally: F
+                    inner = st.body[0]
+                    t = ast.Try(body=inner.body, handlers=inner.handlers,
+                                orelse=inner.orelse, finalbody=st.finalbody)
+                    out.append(ast.copy_location(t, st))
+                    changed[0] = True
+                    i += 1
+                    continue
+                rows = table_rows(st) if isinstance(st, ast.For) else None
+                if rows is not None:
+                    # N15: a loop over a constant table of the class / module
+                    # is that many copies of its body, the loop variables
+                    # replaced by the row's entries
+                    names = [st.target.id] if isinstance(
+                        st.target, ast.Name) else [t.id for t in
+                                                   st.target.elts]
+                    for row in rows:
+                        sub = Subst(dict(zip(names, row)), {})
+                        out.extend(sub.visit(b)
+                                   for b in copy.deepcopy(st.body))
+                    self.stats['table_loops'] = self.stats.get(
+                        'table_loops', 0) + 1
+                    changed[0] = True
+                    i += 1
+                    continue
                 if isinstance(st, ast.For) and is_stage_loop(st):
                     for e in st.iter.elts:
                         nm = self.fresh(st.target.id)
@@ -634,6 +665,187 @@ class Normalizer(object):
                         k.arg is not None and plain(k.value, first)
                         for k in e.keywords)
 
+        def table_value(e):
+            """the literal a loop iterates when it names a constant of the
+            method's class (cls.X, self.X, Class.X) or of the module that
+            nothing in the package rebinds or overrides"""
+            from .srcdb import ClassInfo
+            locs = me._locals(ctx)
+            if isinstance(e, ast.Name):
+                if e.id in locs:
+                    return None
+                try:
+                    ent = db.resolve_dotted(fi.module, e)
+                except AnalysisError:
+                    return None
+                if isinstance(ent, tuple) and ent[0] == 'value' and \
+                        len(fi.module.bindings.get(e.id, [])) == 1:
+                    return ent[1], None
+                return None
+            if isinstance(e, ast.Attribute) and isinstance(e.value,
+                                                           ast.Name):
+                ci = None
+                b = e.value.id
+                if fi.cls is not None and fi.params and b == fi.params[0] \
+                        and fi.kind in ('class', 'instance') and \
+                        b not in (locs - set(fi.params)):
+                    ci = fi.cls
+                elif b not in locs:
+                    try:
+                        ent = db.deref(db.resolve_dotted(fi.module, e.value))
+                    except AnalysisError:
+                        ent = None
+                    if isinstance(ent, ClassInfo):
+                        ci = ent
+                if ci is None:
+                    return None
+                defs = ci.attrs.get(e.attr)
+                if not defs or len(defs) != 1 or defs[0].kind != 'assign':
+                    return None
+                if any(e.attr in k.attrs for k in db.subclasses(ci)):
+                    return None     # a subclass may bring its own table
+                return defs[0].value, ci
+            return None
+
+        def table_elem(x, ci):
+            """an entry that means the same written inside the method"""
+            locs = me._locals(ctx)
+            if isinstance(x, ast.Constant):
+                return True
+            if isinstance(x, ast.Name):
+                if x.id in locs or (ci is not None and x.id in ci.attrs):
+                    return False
+                return True
+            if isinstance(x, ast.Attribute):
+                return table_elem(x.value, ci)
+            if isinstance(x, ast.Lambda):
+                bound = {a.arg for a in ast.walk(x.args)
+                         if isinstance(a, ast.arg)}
+                return all(table_elem(n, ci) for n in ast.walk(x.body)
+                           if isinstance(n, ast.Name) and n.id not in bound)
+            if isinstance(x, ast.Call) and isinstance(
+                    x.func, (ast.Name, ast.Attribute)) and ext(x.func) in (
+                        'operator.attrgetter', 'operator.itemgetter',
+                        'operator.methodcaller', 'functools.partial'):
+                return all(table_elem(a, ci) for a in x.args) and all(
+                    k.arg is not None and table_elem(k.value, ci)
+                    for k in x.keywords)
+            return False
+
+        def table_rows(st):
+            if st.orelse or contains(st.body, (
+                    ast.Break, ast.Continue, ast.Yield, ast.YieldFrom)):
+                return None
+            tv = table_value(st.iter)
+            if tv is None:
+                return None
+            val, ci = tv
+            if not isinstance(val, (ast.Tuple, ast.List)) or \
+                    not (1 <= len(val.elts) <= 8) or len(st.body) > 6:
+                return None
+            if isinstance(st.target, ast.Name):
+                names = [st.target.id]
+                rows = [[e] for e in val.elts]
+            elif isinstance(st.target, ast.Tuple) and all(
+                    isinstance(t, ast.Name) for t in st.target.elts):
+                names = [t.id for t in st.target.elts]
+                rows = []
+                for e in val.elts:
+                    if not isinstance(e, ast.Tuple) or \
+                            len(e.elts) != len(names):
+                        return None
+                    rows.append(list(e.elts))
+            else:
+                return None
+            if not all(table_elem(x, ci) for r in rows for x in r):
+                return None
+            mine = set(id(x) for x in ast.walk(st))
+            for nm in names:
+                if any(isinstance(x, ast.Name) and x.id == nm and isinstance(
+                        x.ctx, ast.Store) for b in st.body
+                        for x in ast.walk(b)):
+                    return None
+                if any(isinstance(x, ast.Name) and x.id == nm and
+                       id(x) not in mine for x in ast.walk(fnode)):
+                    return None
+            return rows
+
+        def table_rows_expr(fake, gen):
+            """table_rows for a generator expression: the loop variables must
+            not be used outside it"""
+            tv = table_value(fake.iter)
+            if tv is None:
+                return None
+            val, ci = tv
+            if not isinstance(val, (ast.Tuple, ast.List)) or \
+                    not (1 <= len(val.elts) <= 8):
+                return None
+            t = fake.target
+            if isinstance(t, ast.Name):
+                rows = [[e] for e in val.elts]
+            elif isinstance(t, ast.Tuple) and all(
+                    isinstance(x, ast.Name) for x in t.elts):
+                rows = []
+                for e in val.elts:
+                    if not isinstance(e, ast.Tuple) or \
+                            len(e.elts) != len(t.elts):
+                        return None
+                    rows.append(list(e.elts))
+            else:
+                return None
+            if not all(table_elem(x, ci) for r in rows for x in r):
+                return None
+            return rows
+
+        def fold_consts(e):
+            """constant conditions a substituted table row leaves behind:
+            `458 is None`, `None is None or X`, `not True`"""
+            if isinstance(e, ast.Compare) and len(e.ops) == 1 and \
+                    isinstance(e.left, ast.Constant) and isinstance(
+                        e.comparators[0], ast.Constant):
+                a, b = e.left.value, e.comparators[0].value
+                op = e.ops[0]
+                if isinstance(op, ast.Is):
+                    if a is None or b is None or isinstance(a, bool) or \
+                            isinstance(b, bool):
+                        return ast.Constant(value=a is b)
+                elif isinstance(op, ast.IsNot):
+                    if a is None or b is None or isinstance(a, bool) or \
+                            isinstance(b, bool):
+                        return ast.Constant(value=a is not b)
+                elif isinstance(op, ast.Eq):
+                    return ast.Constant(value=a == b)
+                elif isinstance(op, ast.NotEq):
+                    return ast.Constant(value=a != b)
+                return e
+            if isinstance(e, ast.UnaryOp) and isinstance(e.op, ast.Not):
+                v = fold_consts(e.operand)
+                if isinstance(v, ast.Constant) and isinstance(v.value, bool):
+                    return ast.Constant(value=not v.value)
+                return ast.UnaryOp(op=ast.Not(), operand=v)
+            if isinstance(e, ast.BoolOp):
+                vals = [fold_consts(v) for v in e.values]
+                is_and = isinstance(e.op, ast.And)
+                out = []
+                for v in vals:
+                    if isinstance(v, ast.Constant) and isinstance(
+                            v.value, bool):
+                        if v.value is (not is_and):
+                            # True in an `or` / False in an `and`: decided,
+                            # provided nothing before it had an effect
+                            if not out:
+                                return ast.Constant(value=v.value)
+                            out.append(v)
+                            break
+                        continue        # neutral element
+                    out.append(v)
+                if not out:
+                    return ast.Constant(value=is_and)
+                if len(out) == 1:
+                    return out[0]
+                return ast.BoolOp(op=e.op, values=out)
+            return e
+
         def is_stage_loop(st):
             # for f in (stage, stage, ...): ... f(...) ...   -- a pipeline
             # of callables, run in order: that many copies of the body
@@ -663,6 +875,30 @@ class Normalizer(object):
             def visit_FunctionDef(self, n):
                 return n if n is not fnode else self.generic_visit(n)
             visit_AsyncFunctionDef = visit_FunctionDef
+
+            def visit_ListComp(self, n):
+                # [E for row in TABLE] over a constant table is the list of
+                # its instances (a list comprehension is eager anyway)
+                self.generic_visit(n)
+                if len(n.generators) == 1 and not n.generators[0].ifs and \
+                        not n.generators[0].is_async:
+                    g = n.generators[0]
+                    fake = ast.For(target=g.target, iter=g.iter, body=[],
+                                   orelse=[])
+                    rows = table_rows_expr(fake, n)
+                    if rows is not None:
+                        names = [g.target.id] if isinstance(
+                            g.target, ast.Name) else [t.id for t in
+                                                      g.target.elts]
+                        elts = []
+                        for row in rows:
+                            sub = Subst(dict(zip(names, row)), {})
+                            elts.append(self.visit(sub.visit(
+                                copy.deepcopy(n.elt))))
+                        changed[0] = True
+                        return ast.copy_location(
+                            ast.List(elts=elts, ctx=ast.Load()), n)
+                return n
 
             def visit_Call(self, n):
                 self.generic_visit(n)
@@ -697,6 +933,80 @@ class Normalizer(object):
                                                ctx=ast.Load()),
                             args=[f.value.args[0]] + n.args,
                             keywords=n.keywords), n)
+                # next(E for row in TABLE if C [, default]) over a constant
+                # table: the first row whose condition holds -- a chain of
+                # conditional expressions (N16)
+                if isinstance(f, ast.Name) and f.id == 'next' and \
+                        unshadowed(f) and 'next' not in me._locals(ctx) and \
+                        1 <= len(n.args) <= 2 and not n.keywords and \
+                        isinstance(n.args[0], ast.GeneratorExp) and \
+                        len(n.args[0].generators) == 1 and \
+                        not n.args[0].generators[0].is_async:
+                    g = n.args[0].generators[0]
+                    fake = ast.For(target=g.target, iter=g.iter,
+                                   body=[ast.Expr(value=n.args[0].elt)],
+                                   orelse=[])
+                    rows = table_rows_expr(fake, n.args[0])
+                    if rows is not None:
+                        names = [g.target.id] if isinstance(
+                            g.target, ast.Name) else [t.id for t in
+                                                      g.target.elts]
+                        chain = n.args[1] if len(n.args) == 2 else None
+                        ok = True
+                        for row in reversed(rows):
+                            sub = Subst(dict(zip(names, row)), {})
+                            cond = None
+                            for c in g.ifs:
+                                c2 = sub.visit(copy.deepcopy(c))
+                                cond = c2 if cond is None else ast.BoolOp(
+                                    op=ast.And(), values=[cond, c2])
+                            cond = fold_consts(cond) if cond is not None \
+                                else ast.Constant(value=True)
+                            val = sub.visit(copy.deepcopy(n.args[0].elt))
+                            if isinstance(cond, ast.Constant) and cond.value \
+                                    is True:
+                                chain = val
+                            elif isinstance(cond, ast.Constant) and \
+                                    cond.value is False:
+                                pass
+                            elif chain is None:
+                                ok = False      # may run off the end
+                                break
+                            else:
+                                chain = ast.IfExp(test=cond, body=val,
+                                                  orelse=chain)
+                        if ok and chain is not None:
+                            changed[0] = True
+                            return ast.copy_location(chain, n)
+                # (lambda p..: E)(a..)  ->  E[a../p..]  for plain arguments
+                if isinstance(f, ast.Lambda) and not n.keywords and \
+                        not f.args.vararg and not f.args.kwarg and \
+                        not f.args.kwonlyargs and not f.args.defaults and \
+                        len(f.args.args) == len(n.args) and all(
+                            plain(a, True) for a in n.args):
+                    changed[0] = True
+                    sub = Subst({p.arg: a for p, a in
+                                 zip(f.args.args, n.args)}, {})
+                    return ast.copy_location(
+                        sub.visit(copy.deepcopy(f.body)), n)
+                # attrgetter('k')(x) -> x.k ; itemgetter(c)(x) -> x[c]
+                if isinstance(f, ast.Call) and isinstance(
+                        f.func, (ast.Name, ast.Attribute)) and \
+                        len(f.args) == 1 and not f.keywords and \
+                        len(n.args) == 1 and not n.keywords and isinstance(
+                            f.args[0], ast.Constant):
+                    which = ext(f.func)
+                    k = f.args[0].value
+                    if which == 'operator.attrgetter' and isinstance(
+                            k, str) and k.isidentifier():
+                        changed[0] = True
+                        return ast.copy_location(ast.Attribute(
+                            value=n.args[0], attr=k, ctx=ast.Load()), n)
+                    if which == 'operator.itemgetter':
+                        changed[0] = True
+                        return ast.copy_location(ast.Subscript(
+                            value=n.args[0], slice=f.args[0],
+                            ctx=ast.Load()), n)
                 # getattr(o, 'name')  ->  o.name
                 if isinstance(f, ast.Name) and f.id == 'getattr' and \
                         len(n.args) == 2 and not n.keywords and \
@@ -968,7 +1278,7 @@ class Normalizer(object):
         if a.vararg or a.kwarg or a.kwonlyargs and any(
                 d is None for d in a.kw_defaults):
             pass
-        if a.vararg or a.kwarg:
+        if a.kwarg:
             raise NotInlinable('variadic helper')
         if any(isinstance(x, ast.Starred) for x in call.args) or any(
                 k.arg is None for k in call.keywords):
@@ -984,10 +1294,15 @@ class Normalizer(object):
         pos = list(call.args)
         if recv is not None:
             pos = [recv] + pos
-        if len(pos) > len(params):
+        if len(pos) > len(params) and not a.vararg:
             raise NotInlinable('too many arguments')
         for p, v in zip(params, pos):
             bound[p] = v
+        if a.vararg:
+            # *rest is the tuple of the surplus positional arguments
+            allp = allp + [a.vararg.arg]
+            bound[a.vararg.arg] = ast.Tuple(
+                elts=list(pos[len(params):]), ctx=ast.Load())
         for k in call.keywords:
             if k.arg not in allp or k.arg in bound:
                 raise NotInlinable('bad keyword')
@@ -1005,9 +1320,13 @@ class Normalizer(object):
         node = target.node
         if contains(node.body, (ast.Global, ast.Nonlocal)):
             raise NotInlinable('global statement')
-        if any(not (isinstance(d, ast.Name) and d.id in (
-                'staticmethod', 'classmethod', 'property'))
-               for d in node.decorator_list):
+        def plain_deco(d):
+            if isinstance(d, ast.Name) and d.id in (
+                    'staticmethod', 'classmethod', 'property'):
+                return True
+            return getattr(self, '_cm_ok', False) and self._is_cm_deco(
+                d, target.module)
+        if any(not plain_deco(d) for d in node.decorator_list):
             raise NotInlinable('decorated helper')
         bound, allp = self.bind_args(target, recv, call)
         body = copy.deepcopy(node.body)
@@ -1234,6 +1553,17 @@ class Normalizer(object):
             ast.fix_missing_locations(loop)
             self.stats['joins'] = self.stats.get('joins', 0) + 1
             return [first] + self.inline_stmt(loop, ctx, depth)
+        # N17: `with cm(args) [as v]: BODY` where cm is an in-repo generator
+        # decorated with contextlib.contextmanager: the generator's body with
+        # its one `yield x` replaced by `v = x; BODY` (an exception in BODY
+        # is raised at the yield, so the generator's own try/except/finally
+        # around it apply to BODY)
+        if isinstance(st, ast.With) and len(st.items) == 1 and isinstance(
+                st.items[0].context_expr, ast.Call):
+            w = self.inline_context_manager(st, ctx, depth)
+            if w is not None:
+                return self.inline_block(w, dict(ctx), depth + 1) \
+                    if depth + 1 < MAX_DEPTH else w
         # generator consumed by a for loop
         if isinstance(st, ast.For) and isinstance(st.iter, ast.Call) and \
                 not st.orelse:
@@ -1320,6 +1650,84 @@ class Normalizer(object):
                 except NotInlinable:
                     continue
         return e
+
+    def _is_cm_deco(self, d, module):
+        try:
+            ent = self.db.resolve_dotted(module, d)
+        except AnalysisError:
+            return False
+        return getattr(ent, 'dotted', None) == 'contextlib.contextmanager'
+
+    def inline_context_manager(self, st, ctx, depth):
+        call = st.items[0].context_expr
+        r = self.resolve_call(call, ctx)
+        if r is None:
+            return None
+        target, recv = r
+        node = target.node
+        if not any(self._is_cm_deco(d, target.module)
+                   for d in node.decorator_list):
+            return None
+        ys = [n for n in walk_shallow(node.body)
+              if isinstance(n, (ast.Yield, ast.YieldFrom))]
+        if len(ys) != 1 or not isinstance(ys[0], ast.Yield) or contains(
+                node.body, (ast.Return,)):
+            return None
+        as_var = st.items[0].optional_vars
+        if as_var is not None and not isinstance(as_var, ast.Name):
+            return None
+        # the with-body must not leave by return / break / continue: inside
+        # the generator's frame those would mean something else
+        if contains(st.body, (ast.Return, ast.Break, ast.Continue)):
+            return None
+        self._cm_ok = True
+        try:
+            prefix, gbody = self.instantiate(target, recv, call, ctx)
+        except NotInlinable:
+            return None
+        finally:
+            self._cm_ok = False
+        done = [False]
+
+        def place(stmts):
+            out = []
+            for s_ in stmts:
+                if isinstance(s_, ast.Expr) and isinstance(s_.value,
+                                                           ast.Yield):
+                    if as_var is not None:
+                        out.append(ast.copy_location(ast.Assign(
+                            targets=[as_var], value=s_.value.value or
+                            ast.Constant(value=None)), s_))
+                    elif s_.value.value is not None and has_call(
+                            s_.value.value):
+                        out.append(ast.copy_location(
+                            ast.Expr(value=s_.value.value), s_))
+                    out.extend(st.body)
+                    done[0] = True
+                    continue
+                if contains([s_], (ast.Yield,)):
+                    if isinstance(s_, (ast.For, ast.While)):
+                        raise NotInlinable('yield inside a loop')
+                    for owner, f in sub_blocks(s_):
+                        setattr(owner, f, place(getattr(owner, f)))
+                    if not done[0]:
+                        raise NotInlinable('yield in expression position')
+                out.append(s_)
+            return out
+        try:
+            new = place(gbody)
+        except NotInlinable:
+            return None
+        if not done[0]:
+            return None
+        self.stats['context_managers'] = self.stats.get(
+            'context_managers', 0) + 1
+        self.stats['helpers'].add('%s:%s' % (target.module.name,
+                                             target.qualname))
+        out = prefix + new
+        for x in out:
+            ast.fix_missing_locations(x)
+        return out
 
     def _empty_join(self, e, ctx):
         if not (isinstance(e, ast.Call) and isinstance(e.func, ast.Attribute)
